@@ -58,10 +58,20 @@ func (h *Handler) HandleOpenDir(ctx *Context, path string) bool {
 		ctx.State.CwdHandle = nil
 	}
 
+	// it's crucial to send "true" for directory and "false" for file
+	if !info.IsDir() {
+		// nothing to list: a file (or a generated image, which re-reads its source directory on every
+		// listing call and never reports the end) must not become the connection's open directory
+		if err := handle.Close(); err != nil {
+			log.WarnContext(ctx, "Close failed", logutil.ErrorAttr(err))
+		}
+
+		return false
+	}
+
 	ctx.State.CwdHandle = handle
 
-	// it's crucial to send "true" for directory and "false" for file
-	return info.IsDir()
+	return true
 }
 
 func (h *Handler) HandleReadDirEntry(ctx *Context) fs.FileInfo {
